@@ -9,14 +9,17 @@
 (*                                url reaches the handler the key belongs  *)
 (*                                to with the same parameters, or an       *)
 (*                                earlier registration shadows it          *)
-(*   mount points           PReq: first mount point whose host / script /  *)
-(*                                path patterns match entirely; selected   *)
-(*                                group handed on                          *)
+(*   mount points           PReq: the first registered matching mount of   *)
+(*                                the pool list, else of the live legacy   *)
+(*                                (application object) list; host / script *)
+(*                                / path matched entirely; selected group  *)
+(*                                handed on; unmounted / destroyed entries *)
+(*                                (PGone) never change who wins            *)
 (***************************************************************************)
 EXTENDS RouteRef, TraceBase
 
-VARIABLES l, cfg, prefix, mps, helpers
-tvars == <<l, cfg, prefix, mps, helpers>>
+VARIABLES l, cfg, prefix, mps, helpers, gone
+tvars == <<l, cfg, prefix, mps, helpers, gone>>
 
 Ev == TraceLog[l]
 Is(name) == l <= NLines /\ Ev.e = name /\ l' = l + 1
@@ -77,22 +80,25 @@ MapOK ==
                         IN /\ w \in {"reached", "shadowed"}
                            /\ (w = "reached" => Observed = [hit |-> TRUE, app |-> Ev.tapp, id |-> Ev.tid, args |-> want]))
 
+\* mps = << [id, kind, mp] >> in registration order (PMount); gone = ids unmounted / destroyed (PGone)
 PReqOK ==
-    LET i == FirstMp(mps, Ev.h, Ev.s, Ev.p)
-    IN /\ Ev.idx = i
-       /\ (i # 0 => \/ (~Unset(IF mps[i].sel = "path" THEN mps[i].path ELSE mps[i].script)
-                        /\ Ambiguous((IF mps[i].sel = "path" THEN mps[i].path ELSE mps[i].script).els,
-                                     IF mps[i].sel = "path" THEN Ev.p ELSE Ev.s))
-                     \/ Ev.matched = MpSelected(mps[i], Ev.s, Ev.p))
+    LET r == PoolLookup(mps, gone, Ev.h, Ev.s, Ev.p)
+        live == SelectSeq(mps, LAMBDA e : e.id \notin gone)
+        amb == \E i \in 1..Len(live) :
+                  LET mp == live[i].mp
+                      sp == IF mp.sel = "path" THEN mp.path ELSE mp.script
+                  IN ~Unset(sp) /\ Ambiguous(sp.els, IF mp.sel = "path" THEN Ev.p ELSE Ev.s)
+    IN amb \/ (Ev.idx = r.id /\ (r.id # 0 => Ev.matched = r.url))
 
-TReset == Is("Reset") /\ cfg' = <<>> /\ prefix' = <<>> /\ mps' = <<>> /\ helpers' = <<>>
-TCfg   == Is("Cfg") /\ cfg' = [i \in 1..Len(Ev.nodes) |-> NodeOf(Ev.nodes[i])] /\ prefix' = Ev.prefix /\ helpers' = Ev.helpers /\ UNCHANGED mps
-TReq   == Is("Req") /\ RouteOK(Ev.m, Ev.p) /\ UNCHANGED <<cfg, prefix, mps, helpers>>
-TMap   == Is("Map") /\ MapOK /\ UNCHANGED <<cfg, prefix, mps, helpers>>
-TPool  == Is("Pool") /\ mps' = Ev.mps /\ UNCHANGED <<cfg, prefix, helpers>>
-TPReq  == Is("PReq") /\ PReqOK /\ UNCHANGED <<cfg, prefix, mps, helpers>>
+TReset == Is("Reset") /\ cfg' = <<>> /\ prefix' = <<>> /\ mps' = <<>> /\ helpers' = <<>> /\ gone' = {}
+TCfg   == Is("Cfg") /\ cfg' = [i \in 1..Len(Ev.nodes) |-> NodeOf(Ev.nodes[i])] /\ prefix' = Ev.prefix /\ helpers' = Ev.helpers /\ UNCHANGED <<mps, gone>>
+TReq   == Is("Req") /\ RouteOK(Ev.m, Ev.p) /\ UNCHANGED <<cfg, prefix, mps, helpers, gone>>
+TMap   == Is("Map") /\ MapOK /\ UNCHANGED <<cfg, prefix, mps, helpers, gone>>
+TPMount == Is("PMount") /\ mps' = Append(mps, [id |-> Ev.id, kind |-> Ev.kind, mp |-> Ev.mp]) /\ UNCHANGED <<cfg, prefix, helpers, gone>>
+TPGone  == Is("PGone") /\ gone' = gone \cup {Ev.id} /\ UNCHANGED <<cfg, prefix, mps, helpers>>
+TPReq  == Is("PReq") /\ PReqOK /\ UNCHANGED <<cfg, prefix, mps, helpers, gone>>
 
-TraceInit == l = 1 /\ cfg = <<>> /\ prefix = <<>> /\ mps = <<>> /\ helpers = <<>>
-TraceNext == TReset \/ TCfg \/ TReq \/ TMap \/ TPool \/ TPReq
+TraceInit == l = 1 /\ cfg = <<>> /\ prefix = <<>> /\ mps = <<>> /\ helpers = <<>> /\ gone = {}
+TraceNext == TReset \/ TCfg \/ TReq \/ TMap \/ TPMount \/ TPGone \/ TPReq
 TraceSpec == TraceInit /\ [][TraceNext]_tvars
 =============================================================================
